@@ -13,6 +13,7 @@ package main
 import (
 	"bytes"
 	"context"
+	"errors"
 	"fmt"
 	"os"
 	"runtime"
@@ -25,6 +26,7 @@ import (
 type c09SOp struct {
 	T     string       `json:"t"`
 	Batch [][2]*string `json:"batch,omitempty"` // [key hex, value hex or null]
+	I     int          `json:"i,omitempty"`     // wtop: which layer above the flushed one (0 = top)
 }
 
 type c09SInput struct {
@@ -41,7 +43,10 @@ type c09Gate struct {
 	putArrive, putGo      chan struct{}
 	putWritten, putGoExit chan struct{}
 	settle                func() error
+	failNext              bool // the next PutChangeSet returns an error and writes nothing (a rolled-back transaction)
 }
+
+var errC09Injected = errors.New("injected failure of the lower store's PutChangeSet")
 
 func (g *c09Gate) Seek(rng storage.SeekRange, f func(k, v []byte) bool) {
 	if g.seekArmed {
@@ -55,6 +60,10 @@ func (g *c09Gate) PutChangeSet(p, s map[string][]byte) error {
 	if g.putArmed {
 		g.putArrive <- struct{}{}
 		<-g.putGo
+	}
+	if g.failNext {
+		g.failNext = false
+		return errC09Injected
 	}
 	err := g.Store.PutChangeSet(p, s)
 	if err == nil && g.settle != nil {
